@@ -8,12 +8,13 @@ batches through Replica::commit_operations, undo, rebuild and read on one direct
 the stored operations (whose stored order is the serialisation order) and tasks are audited by
 TLC (TraceSqliteTxn.tla, Audit)."""
 import json
+import re
 import os
 import shutil
 import time
 
 import vlib
-from vlib import Verdict, build_harness, workdir, log, seed
+from vlib import Verdict, build_harness, workdir, log, seed, write_replay
 
 import c06
 from c06 import consts, mc, validate, trace_consts, scratch, JVM_LIGHT
@@ -99,8 +100,30 @@ def run(tier):
             v.samples.append({"mode": mode, "commits": len(a["commits"]), "undone": len(a["undone"]),
                               "stored_operations": len(a["db"]["ops"]),
                               "first_events": a["events"][:4]})
-    if total.get("inconclusive_runs", 0) > total.get("runs_audited", 0) // 10:
-        v.tool_errors.append("too many inconclusive runs (an undo returned an error)")
+    # an undo that returns an error leaves its run unaudited.  The only error a serialising
+    # store can give here is "busy / locked"; anything else (e.g. "Last operation does not
+    # match": the operations checked at the start of the undo are no longer the tail when it
+    # removes them) shows a transaction that was not isolated
+    anomalies = 0
+    for mode, tr in traces:
+        inc = tr + ".inconclusive"
+        if not os.path.exists(inc):
+            continue
+        for line in open(inc):
+            e = json.loads(line)
+            bad = [m for m in e.get("undo_errors", [])
+                   if not re.search(r"locked|busy", str(m), re.I)]
+            if bad and anomalies < 3:
+                p = write_replay(v.pid, f"concurrent-{mode}-run{e['id']}",
+                                 {"kind": "concurrent-anomaly", "mode": mode, "run": e,
+                                  "what": "an undo failed with an error that a serialising store "
+                                          "cannot give: " + str(bad[0])[:300]})
+                v.violations.append((f"concurrent handles ({mode}): an undo failed with "
+                                     f"'{str(bad[0])[:200]}'", p))
+            anomalies += 1 if bad else 0
+    v.extra["unaudited_runs_with_non_lock_undo_errors"] = anomalies
+    if not anomalies and total.get("inconclusive_runs", 0) > total.get("runs_audited", 0) // 10:
+        v.tool_errors.append("too many inconclusive runs (an undo returned a busy/locked error)")
 
     # 3. binding demonstration: a corrupted audit must be rejected -- one stored operation of a
     #    successful commit removed (a lost update), and one duplicated
